@@ -443,3 +443,28 @@ Proof.
   rewrite IH by lia. cbn [step]. unfold apply_local. destruct (nth_error (w_pop w) i); auto. cbn [w_pop].
   apply nth_error_update_ne. lia.
 Qed.
+
+(* ---- the executable coherence test is exactly the predicate ---------------------------------------- *)
+Lemma Q_eqb_refl x : Q_eqb x x = true.
+Proof. unfold Q_eqb. rewrite Z.eqb_refl, Pos.eqb_refl. reflexivity. Qed.
+
+Lemma same_refs_b_complete l m : same_refs l m -> same_refs_b l m = true.
+Proof.
+  intros (L & I1 & I2). unfold same_refs_b. rewrite L, Nat.eqb_refl. cbn [andb].
+  apply andb_true_iff. split; apply forallb_forall; intros x Hx; apply mem_In; auto.
+Qed.
+
+Lemma coherent_b_complete a : Coherent a -> coherent_b a = true.
+Proof.
+  intros (CO & CA & CH). unfold coherent_b. rewrite !andb_true_iff. split; [split|].
+  - apply forallb_forall. intros o Ho. rewrite Forall_forall in CO. destruct (CO o Ho) as (c & F & S & L).
+    unfold opt_ok_b. rewrite F. rewrite (same_refs_b_complete _ _ S). cbn [andb]. rewrite <- L. apply Q_eqb_refl.
+  - unfold arch_ok_b. apply forallb_forall. intros g Hg. apply forallb_forall. intros s Hs.
+    destruct (memN s (net_names a)) eqn:M; cbn [negb orb]; auto.
+    apply memN_In in M. rewrite (CA g s Hg Hs M). apply N.eqb_refl.
+  - unfold hooked_b. apply forallb_forall. intros o Ho. specialize (CH o Ho).
+    match goal with |- (match ?t with _ => _ end) = true => replace t with (@nil loc); try (symmetry; exact CH); reflexivity end.
+Qed.
+
+Lemma coherent_b_iff a : coherent_b a = true <-> Coherent a.
+Proof. split; [apply coherent_b_sound|apply coherent_b_complete]. Qed.
